@@ -4,7 +4,8 @@ Model:      specs/GenSiblingsP.tla (P: the file is a function of <type, what it 
             specs/GenSiblings.tla (I: process-/object-wide state of the generator: UniqueNameGenerator singleton, the
             LimitEmptyLines counter, Jinja compile-time folding and import-module cache, the lru_cache'd dependency builder
             with the key PyDSDL equality really gives it, the TokenEncoder.strop memo and the path tokens stropped for every
-            type of a run while the namespace tree is built; actions StartRun/Compile/Render/Post), TLC proves I => P for the
+            type of a run while the namespace tree is built, state a template filter keeps between files (e.g. the cached
+            TextWrapper objects behind the C++ block_comment filter); actions StartRun/Compile/Render/Post), TLC proves I => P for the
             repaired design and refutes each "as found" mechanism (negative controls).
 spec->code: (a) every violating history TLC finds in the negative controls is a predicted-defect stimulus, (b) every
             complete history of the repaired model (all subsets x orders x reuse modes) comes with the expected abstract
@@ -12,7 +13,8 @@ spec->code: (a) every violating history TLC finds in the negative controls is a 
             the model's abstract lines; compared after every file.
 code->spec: random DSDL namespaces (nested namespaces, several versions of one type with different dependencies, unions,
             services, twins for size-preserving edits, fields/constants spelled exactly like a sibling's namespace directory
-            or file stem: C reserved-pattern words, target keywords, plain words) through the built-in c/cpp/py/html templates and mirror templates:
+            or file stem: C reserved-pattern words, target keywords, plain words; header / field / constant documentation that
+            is short, longer than the wrap width, has indented list lines, blank comment lines, escaped characters) through the built-in c/cpp/py/html templates and mirror templates:
             whole namespace / dependency-closed subsets / permuted order / PYTHONHASHSEED / reused LanguageContext /
             reused generator object with other generate_all flags / edited definitions; every written file is logged by a
             harness FilePostProcessor and judged by specs/GenSiblingsTrace.tla (clause sib.digest).
@@ -43,11 +45,15 @@ def _sha(b):
 # Part 1 - runs inside the worker / scenario child (imports nunavut lazily; no dependency on vf.core)
 # =====================================================================================================================
 
-def mirror_files(shape, lang):
+def mirror_files(shape, lang, docs=False):
     """The user template set whose output lines map 1:1 to the abstract lines of GenSiblings.tla."""
     uf = "make_unique" if lang == "html" else "to_template_unique_name"
     s = "{{ c10probe() }}" + "\n" * shape["lead"]
     s += "T {{ T.full_name }}.{{ T.version.major }}.{{ T.version.minor }}\n"
+    if docs:
+        # the documentation of the type and of its attributes through the target's own comment filter (one abstract line "C")
+        flt = {"cpp": ["block_comment('cpp-doxygen', 0, 120)", "block_comment('cpp-doxygen', 4, 120)"], "html": ["e", "e"]}.get(lang, ["string", "indent(4)"])
+        s += "C<\n{{ T.doc | %s }}\n{%% for a in T.attributes if a.name %%}{{ a.doc | %s }}\n{%% endfor %%}C>\n" % (flt[0], flt[1])
     for _ in range(shape["lit"]):
         s += 'L {{ "v" | %s }}\n' % uf
     for _ in range(shape["dyn"]):
@@ -72,8 +78,17 @@ def mirror_tokens(text, names):
     lines = text.split("\n")
     if lines and lines[-1] == "":
         lines.pop()
+    region = None
     for ln in lines:
-        if ln == "":
+        if region is not None:
+            if ln == "C>":
+                toks.append(["C", _sha("\n".join(region))[:10]])
+                region = None
+            else:
+                region.append(ln)
+        elif ln == "C<":
+            region = []
+        elif ln == "":
             toks.append(["E"])
         elif ln.startswith("T "):
             toks.append(["T", ln[2:]])
@@ -102,27 +117,33 @@ def mirror_tokens(text, names):
 _RE_UNIQ = re.compile(r"_[a-z][a-z_]*?\d+_")
 _RE_INC = re.compile(r"^\s*(#\s*include\b.*|import\s.*|from\s.*\simport\s.*)$")
 _RE_B85 = re.compile(r"^\s+'[0-9A-Za-z!#$%&()*+\-;<=>?@^_`{|}~]+'$")
-NORMS = "buims"  # blank lines, unique names, include/import lines, pickled model (py), stropping affixes (underscores)
+_RE_COMMENT = re.compile(r"^\s*(//|/\*|\*(?!\w)|#(?!\s*(include|define|undef|if|ifdef|ifndef|else|elif|endif|pragma|error|warning|line)\b))")
+LINE_CLASSES = {"blank": "blank-lines", "include": "include-list", "pickle": "pickled-model", "comment": "doc-comments"}
 
 
 def norm_hashes(text):
-    """digests of the text under every combination of four normalisations; used only to CLASSIFY a digest conflict
-    (which kind of line differs -> signature), never to judge"""
-    lines = text.split("\n")
-    res = {}
-    for mask in range(1, 32):
-        ls = lines
-        if mask & 16:
-            ls = [l.replace("_", "") for l in ls]
-        if mask & 1:
-            ls = [l for l in ls if l.strip() != ""]
-        if mask & 2:
-            ls = [_RE_UNIQ.sub("_U_", l) for l in ls]
-        if mask & 4:
-            ls = [l for l in ls if not _RE_INC.match(l)]
-        if mask & 8:
-            ls = [l for l in ls if not _RE_B85.match(l)]
-        res[str(mask)] = _sha("\n".join(ls))[:12]
+    """digests per class of line (blank lines with their position among the code lines, include/import lines, lines of the py
+    target's pickled model, comment lines) and of the remaining lines under the substitutions unique names / underscores (the
+    stropping affixes); used only to CLASSIFY a digest conflict (which kind of line differs -> signature), never to judge"""
+    cls = {k: [] for k in LINE_CLASSES}
+    other = []
+    for l in text.split("\n"):
+        if l.strip() == "":
+            cls["blank"].append(str(len(other)))
+        elif _RE_INC.match(l):
+            cls["include"].append(l)
+        elif _RE_B85.match(l):
+            cls["pickle"].append(l)
+        elif _RE_COMMENT.match(l):
+            cls["comment"].append(l)
+        else:
+            other.append(l)
+    res = {k: _sha("\n".join(v))[:12] for k, v in cls.items()}
+    uq = [_RE_UNIQ.sub("_U_", l) for l in other]
+    res["o0"] = _sha("\n".join(other))[:12]
+    res["o1"] = _sha("\n".join(uq))[:12]
+    res["o2"] = _sha("\n".join(l.replace("_", "") for l in other))[:12]
+    res["o3"] = _sha("\n".join(l.replace("_", "") for l in uq))[:12]
     return res
 
 
@@ -317,7 +338,7 @@ def run_scenario(sc, work, seed):
                 tdir = work / ("tpl_%s" % lang)
                 if not tdir.exists():
                     tdir.mkdir()
-                    for fn, txt in mirror_files(tpl["shape"], lang).items():
+                    for fn, txt in mirror_files(tpl["shape"], lang, bool(tpl.get("docs"))).items():
                         (tdir / fn).write_text(txt)
 
                 def probe(_st=st):
@@ -451,10 +472,39 @@ def worker_main(jobfile, outfile):
 # Part 2 - scenario construction (main process)
 # =====================================================================================================================
 
+# documentation shapes (text after "# "): short, longer than the wrap width of the comment filters (~120 columns), indented list
+# lines, blank comment lines, characters comment / markup filters escape
+_LONG = ("This sentence is deliberately much longer than one hundred and twenty columns so that every comment filter which wraps text "
+         "has to break it at least once and then has to decide how the continuation line is indented, twice if need be.")
+DOC_SHAPES = {
+    "short": ["Short."],
+    "long": [_LONG],
+    "list": ["Items:", "  - first item", "  - second item which is " + _LONG.lower(), "    deeper"],
+    "listlong": ["  - starts indented", _LONG],
+    "blank": ["First paragraph.", "", "Second paragraph after a blank comment line.", "", ""],
+    "escape": ["Escapes: */ /* \"\"\" <b>&amp;</b> 100% {braces} `ticks` $dollar \\n and a tab\there."],
+    "mixed": [_LONG, "", "  - item", _LONG + " Again."],
+}
+
+
+def doc_block(kind, indent=""):
+    return "".join((indent + "# " + l).rstrip() + "\n" for l in DOC_SHAPES[kind])
+
+
+def with_docs(text, header, attr):
+    """adds a header comment and a comment after every attribute line of a DSDL definition"""
+    out = [doc_block(header), "\n"]
+    for ln in text.splitlines():
+        out.append(ln + "\n")
+        if ln and not ln.startswith(("@", "#", "-")):
+            out.append(doc_block(attr))
+    return "".join(out)
+
+
 MODEL_WORDS = {1: ["strobe", "total", "island", "memory", "atomic_x", "isle"], 2: ["plain", "speed"], 3: ["plain"]}
 
 
-def model_defsets(ntypes=4, stem=None):
+def model_defsets(ntypes=4, stem=None, docs=False):
     """DSDL for the definition sets of GenSiblings.tla: A1/A2 are twins (same size), A3 refers to A1 (set 1), A2 (set 2) or both
     (set 3) - in sets 1 and 2 it keeps name, version and bit-length set -, A4 refers to A3.  With `stem` the second type is named
     <stem> (its file stem / path token is <stem>_1_0) and the first type - which does not refer to it - has a field of exactly
@@ -469,6 +519,9 @@ def model_defsets(ntypes=4, stem=None):
         if stem:
             f = {k.replace("A2.1.0", stem + ".1.0"): v.replace("mr.A2.1.0", "mr.%s.1.0" % stem) for k, v in f.items()}
             f["mr/A1.1.0.dsdl"] = f["mr/A1.1.0.dsdl"].replace("@sealed", "uint8 %s_1_0\n@sealed" % stem)
+        if docs:
+            # the second type's documentation has indented lines, the documentation of the others is long enough to be wrapped
+            f = {k: with_docs(v, *(("list", "listlong") if k.split("/")[1].split(".")[0] in ("A2", stem) else ("long", "mixed"))) for k, v in f.items()}
         res.append(f)
     return res
 
@@ -485,6 +538,7 @@ def model_scenario(sid, rec, lang, kind, builtin=False):
         stem = ws[sid % len(ws)]
         if lang == "html":
             lang = "c"  # the html target has no identifier filter
+    docs = bool(int(rec.get("docs", 0)))
     tname = {t: ("mr.%s.1.0" % stem if (stem and t == 2) else "mr.A%d.1.0" % t) for t in range(1, 5)}
     if limit == 0 and (shape["lead"] or shape["trail"]) and lang in ("c", "py"):
         lang = {"c": "cpp", "py": "html"}[lang]  # c and py add LimitEmptyLines(1) of their own: "no limiter" does not exist there
@@ -501,12 +555,13 @@ def model_scenario(sid, rec, lang, kind, builtin=False):
         for r in runs:
             if lang in ("cpp", "html") and limit == 0:
                 r["pps"], r["tap"] = {"limit": None}, (sid % 2 == 0)
-        return {"sid": sid, "kind": kind + "/builtin", "defsets": model_defsets(stem=stem), "rootns": "mr", "lookup": [], "tpl": {"id": "builtin"},
+        return {"sid": sid, "kind": kind + "/builtin", "defsets": model_defsets(stem=stem, docs=docs), "rootns": "mr", "lookup": [], "tpl": {"id": "builtin"},
                 "names": {}, "runs": runs}
     names = {"mr/A%d_1_0" % i: i for i in range(1, 5)}
     if stem:
         names["mr/%s_1_0" % stem] = 2
-    return {"sid": sid, "kind": kind, "defsets": model_defsets(stem=stem), "rootns": "mr", "lookup": [], "tpl": {"id": "mirror", "shape": shape},
+    return {"sid": sid, "kind": kind, "defsets": model_defsets(stem=stem, docs=docs), "rootns": "mr", "lookup": [],
+            "tpl": {"id": "mirror", "shape": shape, "docs": docs},
             "names": names, "tname": tname, "runs": runs, "expect": expect}
 
 
@@ -564,11 +619,17 @@ class NsBuilder:
 
     def text(self, t):
         lines = []
+        hd, ad = t.get("docs") or (None, None)
+        if hd:
+            lines += [doc_block(hd).rstrip("\n"), ""]
         if t.get("pre"):
             lines.append(t["pre"])
         if t["kind"] == "union":
             lines.append("@union")
-        lines += ["%s %s" % f for f in t["fields"]]
+        for i, f in enumerate(t["fields"]):
+            lines.append("%s %s" % f)
+            if ad and i % 2 == 0:
+                lines.append(doc_block(ad).rstrip("\n"))
         lines.append("@extent %d" % t["ext"] if t.get("ext") else "@sealed")
         if t["kind"] == "service":
             lines.append("---")
@@ -620,6 +681,9 @@ def rand_namespace(rng):
             obs["fields"] = obs["fields"] + [(rng.choice(PRIMS), spelled)]
         else:
             obs["pre"] = (obs.get("pre") + "\n" if obs.get("pre") else "") + "uint8 %s = %d" % (spelled, i + 1)
+    for t in b.types:
+        if rng.random() < 0.6:
+            t["docs"] = (rng.choice(list(DOC_SHAPES)), rng.choice([None] + list(DOC_SHAPES)))
     d0 = b.files()
     defsets = [d0]
     edits = []
@@ -717,7 +781,7 @@ def rand_scenario(ctx, sid, rng):
         raise MachineryFailure("could not invent a DSDL namespace PyDSDL accepts")
     lang = LANGS[sid % 4] if rng.random() < 0.8 else rng.choice(LANGS)
     mirror = rng.random() < 0.4
-    tpl = {"id": "mirror", "shape": rand_shape(rng)} if mirror else {"id": "builtin"}
+    tpl = {"id": "mirror", "shape": rand_shape(rng), "docs": rng.random() < 0.6} if mirror else {"id": "builtin"}
     langopts = rng.choice(LANGOPTS[lang])
     r = rng.random()
     if r < 0.45:
@@ -839,6 +903,32 @@ def canonical_spelling_scenarios(sid0):
     return res
 
 
+def canonical_doc_scenarios(sid0):
+    """the observed types and their siblings carry header / field / constant documentation of every shape; whole namespace vs
+    subsets vs other orders vs reused context / generator: state inside a comment filter shows as a digest difference"""
+    fields = "uint8 a\nuint16[<=3] b\nuint8 K = 3\nbool c\n@sealed\n"
+    union = "@union\nuint8 a\nuint16[<=3] b\nbool c\n@sealed\n"
+    defs = {"vr/Lng.1.0.dsdl": with_docs(fields, "long", "long"), "vr/Lst.1.0.dsdl": with_docs(fields, "list", "listlong"),
+            "vr/Mix.1.0.dsdl": with_docs(fields, "mixed", "blank"), "vr/Esc.1.0.dsdl": with_docs(fields, "escape", "escape"),
+            "vr/Sht.1.0.dsdl": with_docs(fields, "short", "short"), "vr/Uni.1.0.dsdl": with_docs(union, "long", "mixed"),
+            "vr/Ulst.1.0.dsdl": with_docs(union, "listlong", "list"),
+            "vr/Ref.1.0.dsdl": with_docs("vr.Lng.1.0 l\nvr.Uni.1.0[<=2] u\n@sealed\n", "mixed", "long"),
+            "vr/n1/Srv.1.0.dsdl": with_docs("vr.Lng.1.0 q\n@sealed\n---\nuint8 r\n@sealed\n", "long", "list")}
+    res = []
+    for lang, tpl in (("cpp", {"id": "builtin"}), ("cpp", "mirror"), ("html", {"id": "builtin"}), ("c", {"id": "builtin"}), ("py", {"id": "builtin"}),
+                      ("html", "mirror")):
+        if tpl == "mirror":
+            tpl = {"id": "mirror", "docs": True, "shape": {"lead": 0, "trail": 0, "lit": 0, "dyn": 0, "mod": False, "inc": False, "nam": False}}
+        base = {"lang": lang, "langopts": None, "pps": {"limit": None}, "tap": True, "omit": False, "embed": False, "d": 0, "gen": "fresh", "lctx": "fresh"}
+        runs = [dict(base, types=["vr.Lng.1.0", "vr.Uni.1.0"]), dict(base, types=None), dict(base, types=["vr.Lst.1.0", "vr.Lng.1.0"]),
+                dict(base, types=["vr.Lng.1.0", "vr.Lst.1.0"], lctx="same"), dict(base, types=["vr.Ulst.1.0", "vr.Uni.1.0", "vr.Esc.1.0"]),
+                dict(base, types=None, lctx="same")]
+        runs.append(dict(runs[-1], gen="same"))
+        runs += [dict(base, types=["vr.Uni.1.0", "vr.Lng.1.0", "vr.Ref.1.0", "vr.Mix.1.0"]), dict(base, types=None)]
+        res.append({"sid": sid0 + len(res), "kind": "canonical", "defsets": [defs], "rootns": "vr", "lookup": [], "tpl": tpl, "names": {}, "runs": runs})
+    return res
+
+
 # =====================================================================================================================
 # Part 3 - driver, judgement
 # =====================================================================================================================
@@ -892,9 +982,6 @@ def finish_event(ev):
     return ev
 
 
-NORM_NAMES = {1: "blank-lines", 2: "unique-names", 4: "include-list", 8: "pickled-model", 16: "identifier-stropping"}
-
-
 def mirror_parts(toks):
     """leading empty lines, trailing empty lines, body values per line tag (the mirror template fixes the order of the tags)"""
     i, j = 0, len(toks)
@@ -926,17 +1013,23 @@ def diff_classes(e1, e2):
             res.append("include-list")
         if b1.get("N") != b2.get("N"):
             res.append("identifier-stropping")
+        if b1.get("C") != b2.get("C"):
+            res.append("doc-comments")
         if b1.get("T") != b2.get("T") or b1.get("?") != b2.get("?") or not res:
             res.append("other")
         return res
     h1, h2 = e1["nh"], e2["nh"]
-    best = None
-    for mask in range(1, 32):
-        if h1.get(str(mask)) == h2.get(str(mask)) and (best is None or bin(mask).count("1") < bin(best).count("1")):
-            best = mask
-    if best is None:
-        return ["other"]
-    return [NORM_NAMES[b] for b in (1, 2, 4, 8, 16) if best & b]
+    res = [name for k, name in LINE_CLASSES.items() if h1.get(k) != h2.get(k)]
+    if h1.get("o0") != h2.get("o0"):
+        if h1.get("o1") == h2.get("o1"):
+            res.append("unique-names")
+        elif h1.get("o2") == h2.get("o2"):
+            res.append("identifier-stropping")
+        elif h1.get("o3") == h2.get("o3"):
+            res += ["unique-names", "identifier-stropping"]
+        else:
+            res.append("other")
+    return res or ["other"]
 
 
 def describe(sc, ev):
@@ -1055,11 +1148,11 @@ def compare_expected(ctx, sc, evs, rej, perturb=None):
             tname = sc.get("tname") or {}
             tn = lambda i: tname.get(i, tname.get(str(i), "mr.A%d.1.0" % i))  # noqa: E731 (keys are strings after a JSON round trip)
             # how a name is stropped is the target configuration's business (C09): the I-comparison leaves N lines out
-            want = [list(x) for x in out if (keep_inc or x[0] not in ("I", "S")) and x[0] != "N"]
+            want = [list(x) for x in out if (keep_inc or x[0] not in ("I", "S")) and x[0] not in ("N", "C")]
             want = [["T", tn(x[1])] if x[0] == "T" else x for x in want]
             if perturb is not None and perturb == (ri, fi):
                 want = want + [["E"]]
-            got = [x for x in (ev.get("toks") or []) if x[0] != "N"]
+            got = [x for x in (ev.get("toks") or []) if x[0] not in ("N", "C")]
             if ev["type_name"] != tn(t) or got != want:
                 mism.append((ri, ev, "model expects %s, code wrote %s" % (json.dumps(want), json.dumps(got))))
     return mism
@@ -1091,6 +1184,7 @@ def run(ctx):
     run_model(ctx, "GenSiblings_limiter", consts % 3 + " lead,trail in 0..2 limit in {none,0,1,2}")
     run_model(ctx, "GenSiblings_uniq", consts % 3 + " lit 0..2 dyn 0..1 mod")
     run_model(ctx, ctx.pick("GenSiblings_depsq", "GenSiblings_deps"), "NTypes=%d MaxRuns=3 defsets{1,2,3} omit{F,T}" % ctx.pick(3, 4))
+    run_model(ctx, "GenSiblings_docs", consts % 3 + " documentation: type 2 writes to / types 1,3 show the state of a comment filter")
     run_model(ctx, "GenSiblings_names", consts % 3 + " shared spelling of a sibling's path token and a field; words{path-clean/any-reserved,plain,keyword}")
     if not ctx.quick:
         run_model(ctx, "GenSiblings", "NTypes=3 MaxRuns=2 mixed shapes(32) limit{none,1} defsets{1,2}")
@@ -1099,7 +1193,8 @@ def run(ctx):
     sid = 0
     scen = {}
     neg_names = {"neg_limiter": "ResetLimiter=FALSE", "neg_depkey": "IdentityDepKey=FALSE", "neg_fold": "VolatileUniq=FALSE",
-                 "neg_module": "FreshModule=FALSE", "neg_strop": "FullStropKey=FALSE (stropping memo keyed by spelling only)"}
+                 "neg_module": "FreshModule=FALSE", "neg_strop": "FullStropKey=FALSE (stropping memo keyed by spelling only)",
+                 "neg_filter": "PureFilters=FALSE (a template filter keeps state between files)"}
     ctx.cov["model_negative_controls"] = {}
     pred = {}
     for cfg, flag in neg_names.items():
@@ -1110,13 +1205,13 @@ def run(ctx):
         ctx.cov["model_negative_controls"][cfg] = "%s refuted: %d violating histories in %d states" % (flag, len(hs), res.distinct)
         step = max(1, len(hs) // ctx.pick(24, 120))
         for i, h in enumerate(hs[::step]):
-            plang = {"neg_fold": ["cpp"], "neg_depkey": ["c", "cpp"], "neg_strop": ["c", "c", "cpp", "py"]}.get(cfg, ["c", "cpp", "py", "html"])
+            plang = {"neg_fold": ["cpp"], "neg_depkey": ["c", "cpp"], "neg_strop": ["c", "c", "cpp", "py"], "neg_filter": ["cpp", "cpp", "html", "cpp", "c", "py"]}.get(cfg, ["c", "cpp", "py", "html"])
             sc = model_scenario(sid, h, plang[i % len(plang)], "predicted:" + cfg)
             scen[sid] = sc
             pred[sid] = cfg
             sid += 1
-            if i % 3 == 0 and cfg in ("neg_depkey", "neg_limiter", "neg_strop"):
-                blang = {"neg_limiter": LANGS, "neg_strop": ["c", "c", "py", "cpp"]}.get(cfg, ["c", "cpp"])
+            if i % 3 == 0 and cfg in ("neg_depkey", "neg_limiter", "neg_strop", "neg_filter"):
+                blang = {"neg_limiter": LANGS, "neg_strop": ["c", "c", "py", "cpp"], "neg_filter": ["cpp", "cpp", "html", "cpp", "c", "py"]}.get(cfg, ["c", "cpp"])
                 scen[sid] = model_scenario(sid, h, blang[(i // 3) % len(blang)], "predicted:" + cfg, builtin=True)
                 sid += 1
     n_pred = sid
@@ -1125,7 +1220,7 @@ def run(ctx):
     cases = run_model(ctx, ctx.pick("GenSiblings_emitq", "GenSiblings_emit"), "MaxRuns=2 (emission, repaired model)", emit=True).json_lines()
     if len(cases) < 500:
         raise MachineryFailure("too few histories emitted: %d" % len(cases))
-    step = max(1, len(cases) // ctx.pick(220, 2000))
+    step = max(1, len(cases) // ctx.pick(200, 2000))
     for i, h in enumerate(cases[::step]):
         scen[sid] = model_scenario(sid, h, LANGS[i % 4], "model")
         sid += 1
@@ -1152,8 +1247,11 @@ def run(ctx):
     for sc in canonical_spelling_scenarios(sid):
         scen[sc["sid"]] = sc
         sid += 1
+    for sc in canonical_doc_scenarios(sid):
+        scen[sc["sid"]] = sc
+        sid += 1
     fixed = random.Random(20260926)
-    n_random = ctx.pick(130, 1200)
+    n_random = ctx.pick(120, 1200)
     for i in range(n_random):
         scen[sid] = rand_scenario(ctx, sid, fixed if i < n_random // 3 else ctx.rng)
         sid += 1
